@@ -43,8 +43,8 @@ func pow4(w int) uint64 { return uint64(1) << uint(2*w) }
 // wideValue enumerates, for a kind of width 4 or 8: boundary values, single bits,
 // two adjacent bits, byte-lane patterns and k seed-derived values.
 type wideAxis struct {
-	k     ref.Kind
-	vals  []uint64 // bit patterns
+	k    ref.Kind
+	vals []uint64 // bit patterns
 }
 
 func newWideAxis(k ref.Kind, seed int64, extra int) *wideAxis {
@@ -113,7 +113,7 @@ func init() {
 	h.Register(&h.Check{
 		ID:          "C02",
 		MemLimitGiB: 12,
-		Rule: "every tree of the scope (atoms x shapes), every value of the 1- and 2-byte formats, F4 bit patterns, lane/bit/boundary patterns of wider formats, the header product and the incompleteness product are enumerated completely; each is built with the real factories and ToBytes() is compared byte-for-byte with the independent reference encoder; non-trivial = non-empty reference encoding compared (or a refusal that the reference also demands)",
+		Rule:        "every tree of the scope (atoms x shapes), every value of the 1- and 2-byte formats, F4 bit patterns, lane/bit/boundary patterns of wider formats, the header product and the incompleteness product are enumerated completely; each is built with the real factories and ToBytes() is compared byte-for-byte with the independent reference encoder; non-trivial = non-empty reference encoding compared (or a refusal that the reference also demands)",
 		WatchdogSec: 3600, // items of 16,777,215 elements legitimately take minutes; these checks have no hang oracle
 		Build: func(tier string, seed int64) []h.Space {
 			var sp []h.Space
@@ -132,7 +132,10 @@ func init() {
 			// all values of the 1-byte domains in first/middle/last position
 			oneByte := []ref.Kind{ref.I1, ref.U1, ref.B, ref.BOOLEAN, ref.A}
 			sp = append(sp, h.Space{Name: "all-1-byte-values-x-position", Count: product(len(oneByte), 256, 4),
-				Describe: func(i uint64) interface{} { d := unrank(i, len(oneByte), 256, 4); return fmt.Sprintf("%s value %d position %d", oneByte[d[0]], d[1], d[2]) },
+				Describe: func(i uint64) interface{} {
+					d := unrank(i, len(oneByte), 256, 4)
+					return fmt.Sprintf("%s value %d position %d", oneByte[d[0]], d[1], d[2])
+				},
 				Run: func(c *h.Ctx, i uint64) {
 					d := unrank(i, len(oneByte), 256, 4)
 					k, v, pos := oneByte[d[0]], d[1], d[2]
@@ -167,7 +170,10 @@ func init() {
 					c.Case(0, true, "v1:"+k.String())
 				}})
 			sp = append(sp, h.Space{Name: "all-2-byte-values", Count: product(2, 65536),
-				Describe: func(i uint64) interface{} { d := unrank(i, 2, 65536); return fmt.Sprintf("%s bits %04x", []ref.Kind{ref.I2, ref.U2}[d[0]], d[1]) },
+				Describe: func(i uint64) interface{} {
+					d := unrank(i, 2, 65536)
+					return fmt.Sprintf("%s bits %04x", []ref.Kind{ref.I2, ref.U2}[d[0]], d[1])
+				},
 				Run: func(c *h.Ctx, i uint64) {
 					d := unrank(i, 2, 65536)
 					var n *ref.Node
@@ -314,7 +320,10 @@ func init() {
 				}
 			}
 			sp = append(sp, h.Space{Name: "frame-stream-function-wbit", Count: product(128, 256, 2, 2),
-				Describe: func(i uint64) interface{} { d := unrank(i, 128, 256, 2, 2); return fmt.Sprintf("S%dF%d W=%d item=%d", d[0], d[1], d[2], d[3]) },
+				Describe: func(i uint64) interface{} {
+					d := unrank(i, 128, 256, 2, 2)
+					return fmt.Sprintf("S%dF%d W=%d item=%d", d[0], d[1], d[2], d[3])
+				},
 				Run: func(c *h.Ctx, i uint64) {
 					d := unrank(i, 128, 256, 2, 2)
 					frame(c, &ref.Msg{Stream: d[0], Function: d[1], W: d[2], Dir: "H->E", Session: 0x0102, System: [4]byte{3, 4, 5, 6}}, d[3] == 1)
@@ -410,7 +419,9 @@ func init() {
 			hops := [][]string{{"sess", "sess"}, {"sess", "setw", "sess"}, {"fill", "sess", "setw", "sess"}, {"sess", "fill", "setw"}, {"setw", "sess", "fill", "sess"},
 				{"sess", "unset", "sess"}, {"fill", "setw", "sess", "sess", "sess"}}
 			sp = append(sp, h.Space{Name: "encode-derive-encode-histories", Count: uint64(len(hops) * 4),
-				Describe: func(i uint64) interface{} { return fmt.Sprintf("history %v with ToBytes() after every step (variant %d)", hops[i/4], i%4) },
+				Describe: func(i uint64) interface{} {
+					return fmt.Sprintf("history %v with ToBytes() after every step (variant %d)", hops[i/4], i%4)
+				},
 				Run: func(c *h.Ctx, i uint64) {
 					hist, variant := hops[i/4], int(i%4)
 					tmpl := ref.List(&ref.Node{Kind: ref.U2, Elems: []ref.Elem{{Var: "v0"}, {U: 7}}}, ref.Ascii("x"))
@@ -488,7 +499,10 @@ func init() {
 				}
 			}
 			sp = append(sp, h.Space{Name: "size-boundaries", Count: uint64(len(sizes)), ChunkHint: 1,
-				Describe: func(i uint64) interface{} { s := sizes[i]; return fmt.Sprintf("%s with %d elements nested=%v", s.k, s.n, s.nested) },
+				Describe: func(i uint64) interface{} {
+					s := sizes[i]
+					return fmt.Sprintf("%s with %d elements nested=%v", s.k, s.n, s.nested)
+				},
 				Run: func(c *h.Ctx, i uint64) {
 					s := sizes[i]
 					n := bigNode(s.k, s.n)
